@@ -105,20 +105,24 @@ theorem delete_exact_sqlite {s : Sqlite.St D} (hI : Sqlite.Inv s) {b : String} {
 
 /-! ## Memory -/
 
+/-- one operation: the view after the step is a reference step of the view before -/
 theorem refines_memory {s : Memory.St D} (hI : Memory.Inv s) (op : Op D)
     (hp : Pre .memory (Memory.view s) op) :
     SpecStep .memory (Memory.view s) (Memory.view (Memory.step s op)) op := Memory.refines hI op hp
 
+/-- any history: the final view is the outcome of a reference history from the initial view -/
 theorem history_refines_memory {s : Memory.St D} (hI : Memory.Inv s) (ops : List (Op D))
     (ha : Admissible Memory.view Memory.step .memory s ops) :
     SpecRun .memory (Memory.view s) ops (Memory.view (Memory.run s ops)) :=
   refines_foldl Memory.view Memory.step Memory.Inv .memory (fun _ op h => Memory.inv_step h op)
     (fun _ op h hp => Memory.refines h op hp) ops s hI ha
 
+/-- live ids of a bucket are pairwise distinct and every stored event has one -/
 theorem ids_unique_memory {s : Memory.St D} (hI : Memory.Inv s) {b : String} {m : Meta}
     {es : List (Ev D)} (hv : Memory.view s b = some (m, es)) :
     (es.filterMap (·.id)).Nodup ∧ ∀ x ∈ es, x.id.isSome := Memory.ids_nodup hI hv
 
+/-- lookup by id is `find` in the bucket's list -/
 theorem lookup_by_id_memory {s : Memory.St D} (hI : Memory.Inv s) {b : String} {m : Meta}
     {es : List (Ev D)} (hv : Memory.view s b = some (m, es)) (i : Int) :
     Memory.getEvent s b i = .ok (es.find? (fun x => x.id = some i)) := Memory.getEvent_eq hI hv i
@@ -131,6 +135,9 @@ theorem no_live_id_reuse_memory {s s' : Memory.St D} (hI : Memory.Inv s) {b : St
   obtain ⟨i, h1, _, h2, h3⟩ := Memory.insertOne_view' hI he h
   exact ⟨i, h1, h3, h2⟩
 
+/-- replace-last on a non-empty bucket rewrites exactly one position of the list, the one holding a
+    newest event `t`, which is the event the limit-1 read returns; it keeps `t`'s id; no other event of
+    the bucket and no other bucket changes -/
 theorem replaceLast_hits_limit1_memory {s : Memory.St D} (hI : Memory.Inv s) {b : String}
     {m : Meta} {es : List (Ev D)} (hv : Memory.view s b = some (m, es)) (hne : es ≠ [])
     (hint : Option Int) (e : Ev D) :
@@ -149,6 +156,8 @@ theorem replaceLast_hits_limit1_memory {s : Memory.St D} (hI : Memory.Inv s) {b 
   simp only [Memory.step, hs']
   rw [hv', hi]; exact h3
 
+/-- delete removes exactly the addressed event: a live id loses its one position, anything else
+    changes nothing; other buckets are never touched -/
 theorem delete_exact_memory {s : Memory.St D} (hI : Memory.Inv s) {b : String} {m : Meta}
     {es : List (Ev D)} (hv : Memory.view s b = some (m, es)) (i : Int) :
     (∀ t ∈ es, t.id = some i → ∃ l1 l2, es = l1 ++ t :: l2 ∧ (∀ x ∈ l1 ++ l2, x.id ≠ some i) ∧
@@ -170,20 +179,24 @@ theorem delete_exact_memory {s : Memory.St D} (hI : Memory.Inv s) {b : String} {
 
 /-! ## Peewee -/
 
+/-- one operation: the view after the step is a reference step of the view before -/
 theorem refines_peewee {s : Peewee.St D} (hI : Peewee.Inv s) (op : Op D)
     (hp : Pre .peewee (Peewee.view s) op) :
     SpecStep .peewee (Peewee.view s) (Peewee.view (Peewee.step s op)) op := Peewee.refines hI op hp
 
+/-- any history: the final view is the outcome of a reference history from the initial view -/
 theorem history_refines_peewee {s : Peewee.St D} (hI : Peewee.Inv s) (ops : List (Op D))
     (ha : Admissible Peewee.view Peewee.step .peewee s ops) :
     SpecRun .peewee (Peewee.view s) ops (Peewee.view (Peewee.run s ops)) :=
   refines_foldl Peewee.view Peewee.step Peewee.Inv .peewee (fun _ op h => Peewee.inv_step h op)
     (fun _ op h hp => Peewee.refines h op hp) ops s hI ha
 
+/-- live ids of a bucket are pairwise distinct and every stored event has one -/
 theorem ids_unique_peewee {s : Peewee.St D} (hI : Peewee.Inv s) {b : String} {m : Meta}
     {es : List (Ev D)} (hv : Peewee.view s b = some (m, es)) :
     (es.filterMap (·.id)).Nodup ∧ ∀ x ∈ es, x.id.isSome := Peewee.ids_nodup hI hv
 
+/-- lookup by id is `find` in the bucket's list -/
 theorem lookup_by_id_peewee {s : Peewee.St D} (hI : Peewee.Inv s) {b : String} {m : Meta}
     {es : List (Ev D)} (hv : Peewee.view s b = some (m, es)) (i : Int) :
     Peewee.getEvent s b i = .ok (es.find? (fun x => x.id = some i)) := Peewee.getEvent_eq hI hv
@@ -235,6 +248,9 @@ theorem replaceLast_exact_peewee {s s' : Peewee.St D} (hI : Peewee.Inv s) {b : S
   obtain ⟨l1, l2, h1, h2, h3⟩ := Spec.replaceId_exact hv (Peewee.ids_nodup hI hv).1 ht.1 hj e
   exact ⟨t, l1, l2, ht, hj, hh, h1, h2, by rw [hv']; exact h3⟩
 
+/-- delete removes exactly the addressed event: a live id loses its one position, anything else
+    (an id that never existed, was deleted, or lives in another bucket) changes nothing; other
+    buckets are never touched -/
 theorem delete_exact_peewee {s : Peewee.St D} (hI : Peewee.Inv s) {b : String} {m : Meta}
     {es : List (Ev D)} (hv : Peewee.view s b = some (m, es)) (i : Int) :
     (∀ t ∈ es, t.id = some i → ∃ l1 l2, es = l1 ++ t :: l2 ∧ (∀ x ∈ l1 ++ l2, x.id ≠ some i) ∧
@@ -317,36 +333,30 @@ theorem backends_equal_events {s1 : Sqlite.St D} {s2 : Memory.St D} {s3 : Peewee
 interleaved ids), exercising every kind of operation -/
 
 /-- an admissible Sqlite history: insert, replace-last on tied newest events, delete of an id that
-    never existed, replace, bulk insert with an upsert -/
-def exOpsSqlite : List (Op Unit) :=
-  [.insert "a" Sqlite.exEv, .replaceLast "a" none Sqlite.exEv, .delete "b" 99,
-   .replace "a" 3 Sqlite.exEv, .insertMany "a" [Sqlite.exEv, { Sqlite.exEv with id := some 1 }]]
-
-example : Admissible Sqlite.view Sqlite.step .sqlite Sqlite.exS exOpsSqlite :=
-  ⟨⟨rfl, rfl⟩, ⟨_, _, rfl, by decide, fun h => by cases h⟩, rfl, ⟨rfl, by decide⟩,
-   ⟨rfl, by decide⟩, trivial⟩
-
-example : SpecRun .sqlite (Sqlite.view Sqlite.exS) exOpsSqlite
-    (Sqlite.view (Sqlite.run Sqlite.exS exOpsSqlite)) :=
-  history_refines_sqlite Sqlite.exS_inv exOpsSqlite
+    never existed, replace, bulk insert with an upsert; its refinement -/
+example :
+    let ops : List (Op Unit) :=
+      [.insert "a" Sqlite.exEv, .replaceLast "a" none Sqlite.exEv, .delete "b" 99,
+       .replace "a" 3 Sqlite.exEv, .insertMany "a" [Sqlite.exEv, { Sqlite.exEv with id := some 1 }]]
+    Admissible Sqlite.view Sqlite.step .sqlite Sqlite.exS ops ∧
+    SpecRun .sqlite (Sqlite.view Sqlite.exS) ops (Sqlite.view (Sqlite.run Sqlite.exS ops)) := by
+  intro ops
+  have ha : Admissible Sqlite.view Sqlite.step .sqlite Sqlite.exS ops :=
     ⟨⟨rfl, rfl⟩, ⟨_, _, rfl, by decide, fun h => by cases h⟩, rfl, ⟨rfl, by decide⟩,
      ⟨rfl, by decide⟩, trivial⟩
+  exact ⟨ha, history_refines_sqlite Sqlite.exS_inv ops ha⟩
 
 /-- an admissible Peewee history; the hint 3 names the second of two tied newest events -/
-def exOpsPeewee : List (Op Nat) :=
-  [.replaceLast "a" (some 3) Peewee.Example.e0, .insert "b" Peewee.Example.e0, .delete "a" 1]
-
-example : Admissible Peewee.view Peewee.step .peewee Peewee.Example.s0 exOpsPeewee :=
+example : Admissible Peewee.view Peewee.step .peewee Peewee.Example.s0
+    [.replaceLast "a" (some 3) Peewee.Example.e0, .insert "b" Peewee.Example.e0, .delete "a" 1] :=
   ⟨⟨_, _, rfl, by decide, fun _ h hh => ⟨⟨some 3, 10, 1, 9⟩, by
       injection hh with hh; subst hh; exact ⟨⟨by decide, by decide⟩, rfl⟩⟩⟩,
    ⟨rfl, rfl⟩, rfl, trivial⟩
 
 /-- an admissible Memory history -/
-def exOpsMemory : List (Op Nat) :=
-  [.replaceLast "b" none ⟨none, 9, 9, 9⟩, .insert "a" ⟨none, 1, 1, 1⟩, .delete "b" 1,
-   .create "c" Memory.exMeta]
-
-example : Admissible Memory.view Memory.step .memory Memory.exSt exOpsMemory :=
+example : Admissible Memory.view Memory.step .memory Memory.exSt
+    [.replaceLast "b" none ⟨none, 9, 9, 9⟩, .insert "a" ⟨none, 1, 1, 1⟩, .delete "b" 1,
+     .create "c" Memory.exMeta] :=
   ⟨⟨_, _, rfl, by decide, fun h => by cases h⟩, ⟨rfl, rfl⟩, rfl, rfl, trivial⟩
 
 /-- a history that leaves the reference model no choice: replace-last on a bucket with one newest
